@@ -296,9 +296,36 @@ Section StepSkeletons.
       (fun rc => retry_loop rg rp rc sp k) (save_error_prim sp) (foreach_loop rg rp sp k) s
     = foreach_or_cond rg rp sp k s.
   Proof.
-    unfold gen_run_foreach_or_conditional, foreach_or_cond.
-    destruct (has_foreach sp); rewrite andthen_ok_id; [reflexivity|].
-    apply gen_run_conditional_decorators_is_model.
+    unfold gen_run_foreach_or_conditional, foreach_or_cond, has_foreach, opt_truth.
+    destruct (s_foreach sp) as [fe|]; [destruct (py_truth fe)|]; rewrite andthen_ok_id;
+      try reflexivity; apply gen_run_conditional_decorators_is_model.
+  Qed.
+
+  (** [Step.foreach_loop]: the iterable is formatted once, before the first item; each item is
+      written to [i] before the conditional layer runs for it; the first abnormal outcome ends the loop *)
+  Lemma gen_foreach_loop_is_model sp k s :
+    gen_foreach_loop sp (fun it => cond rg rp sp (mkcnt (k_while k) (Some it) (k_retry k))) s
+    = foreach_loop rg rp sp k s.
+  Proof.
+    unfold gen_foreach_loop, foreach_loop. cbv zeta.
+    destruct (fmt s _) as [v|n m|]; try reflexivity. simpl lift.
+    destruct (iter_items v) as [items|n m|]; try reflexivity. simpl lift.
+    rewrite andthen_ok_id. revert s. induction items as [|it items IH]; intros s; [reflexivity|].
+    simpl. rewrite andthen_ok_id.
+    destruct (cond rg rp sp _ _) as [[| | |] s1]; simpl; auto.
+  Qed.
+
+  (** [Step.run_step]: in-arguments set first, removed only after normal completion; while wraps
+      foreach-or-conditional.  (Step descriptions are not modelled: [self.description] is None.) *)
+  Lemma gen_step_run_step_is_model sp s :
+    gen_step_run_step sp (fun s => (OOk, set_step_input sp s)) (fun s => (OOk, unset_step_input sp s))
+      (fun w => while_loop rg rp w sp) (foreach_or_cond rg rp sp no_counters) s
+    = run_step rg rp sp s.
+  Proof.
+    unfold gen_step_run_step, run_step. simpl andthen. cbv zeta.
+    destruct (s_while sp) as [w|].
+    - destruct (while_loop rg rp w sp _) as [[| | |] s1]; reflexivity.
+    - destruct (foreach_or_cond rg rp sp no_counters _) as [[| | |] s1]; reflexivity.
   Qed.
 
   (** [WhileDecorator.exec_iteration] *)
